@@ -81,7 +81,8 @@ class Conciliation(Observer):
         return born
 
     def on_child(self, sim, inst, child, what):
-        if what == 'exit' and child.killed_by is None and child.sts not in (None, 0):
+        # any exit nobody asked for: with code 0 too, a process that exits while STARTING ends FATAL (running failure)
+        if what == 'exit' and child.killed_by is None and child.sts is not None:
             self.crashes.append(sim.now_us)
 
     def on_request(self, sim, inst, identifier, rtype, body):
